@@ -794,8 +794,13 @@ class _InternalBaseTracer(_InternalBaseTracerSuper, metaclass=MetaTracerStateMac
             code = augmenter(code)
         return code
 
-    def parse(self, code: str, mode="exec") -> Union[ast.Module, ast.Expression]:
-        rewriter = self.make_ast_rewriter(self.make_sandbox_fname())
+    def parse(
+        self, code: str, mode="exec", filename: Optional[str] = None
+    ) -> Union[ast.Module, ast.Expression]:
+        # filename: the name the code will be compiled under (its nodes are registered for that file)
+        rewriter = self.make_ast_rewriter(
+            self.make_sandbox_fname() if filename is None else filename
+        )
         for tracer in _TRACER_STACK:
             code = tracer.preprocess(code, rewriter)
         return rewriter.visit(ast.parse(code, mode=mode))
@@ -819,10 +824,17 @@ class _InternalBaseTracer(_InternalBaseTracerSuper, metaclass=MetaTracerStateMac
             if instrument
             else suppress()
         ):
+            visited = False
             if isinstance(code, str):
                 code = textwrap.dedent(code).strip()
-                code = self.parse(code, mode="eval" if do_eval else "exec")
-            if instrument:
+                mode = "eval" if do_eval else "exec"
+                if instrument:
+                    # parse rewrites: a second pass would instrument the instrumentation
+                    visited = True
+                    code = self.parse(code, mode=mode, filename=filename)
+                else:
+                    code = ast.parse(code, mode=mode)
+            if instrument and not visited:
                 code = self.make_ast_rewriter(path=filename).visit(code)
             code_obj = compile(code, filename, "eval" if do_eval else "exec")
             if do_eval:
@@ -879,7 +891,10 @@ class _InternalBaseTracer(_InternalBaseTracerSuper, metaclass=MetaTracerStateMac
                 code = code.lstrip(" \t")
                 if instrument:
                     visited = True
-                    code = cast(ast.Expression, self.parse(code, mode="eval"))
+                    code = cast(
+                        ast.Expression,
+                        self.parse(code, mode="eval", filename=filename),
+                    )
                 else:
                     code = cast(ast.Expression, ast.parse(code, mode="eval"))
             if not isinstance(code, ast.Expression):
@@ -925,7 +940,7 @@ class _InternalBaseTracer(_InternalBaseTracerSuper, metaclass=MetaTracerStateMac
                 code = textwrap.dedent(code).strip()
                 if instrument:
                     visited = True
-                    code = cast(ast.Module, self.parse(code))
+                    code = cast(ast.Module, self.parse(code, filename=filename))
                 else:
                     code = cast(ast.Module, ast.parse(code))
             if not isinstance(code, ast.Module):
